@@ -919,6 +919,12 @@ class Interp:
         for m in cls.enum_members:
             if m.value == v:
                 return m
+        if getattr(cls, 'is_flag', False) and isinstance(v, int):
+            allbits = 0
+            for m in cls.enum_members:
+                allbits |= m.value
+            if v & ~allbits == 0:
+                return self.flag_value(cls, v)
         self.throw('ValueError', f'{v!r} is not a valid {cls.name}')
 
     # ------------------------------------------------------------------ statements
